@@ -567,7 +567,9 @@ def fam_scaled(T=3, thorough=False):
     out = []
     pr = ([1, 5, 2] * T)[:T]
     # (window of the base asset, own window of the scaled asset): equal, wrapper narrower, base narrower, wrapper reaching beyond the horizon
-    wins = [((1, T + 1), (1, T + 1)), ((2, T + 1), (2, T + 1)), ((1, T + 1), (2, T)), ((2, T + 1), (1, T + 1)), ((1, T + 1), (-1, T + 3))]
+    wins = [((1, T + 1), (1, T + 1)), ((2, T + 1), (2, T + 1)), ((1, T + 1), (2, T)), ((2, T + 1), (1, T + 1)), ((1, T + 1), (-1, T + 3)),
+            # the wrapper's window straddling the start / the end of the horizon
+            ((1, T + 1), (-1, 3)), ((1, T + 1), (2, T + 3))]
     for (s, norm, fix), (win, fwin) in itertools.product([(1, 1, 0), (2, 1, 1), (3, 2, 2), (1, 2, 1)], wins):
         if fix == 0 and fwin != win:
             continue
